@@ -685,7 +685,7 @@ package httpserver
 //@   modifies ghost:marked, Config.Managed
 //@   ensures marked == old(marked) + 1
 //@ func enableAutoHTTPS
-//@   modifies ghost:enabled, Config.Enabled, Config.ProtocolMinVersion, Config.ProtocolMaxVersion, Config.Ciphers, Config.CurvePreferences, Config.PreferServerCipherSuites
+//@   modifies ghost:enabled, Config.Enabled, Config.ProtocolMinVersion, Config.ProtocolMaxVersion, Config.Ciphers, Config.CurvePreferences, Config.PreferServerCipherSuites, Address.Scheme, Address.Port
 //@   ensures enabled == old(enabled) + 1
 //@ func makePlaintextRedirects
 //@   requires forall(k, 0, len(allConfigs), allConfigs[k] != nil && allConfigs[k].TLS != nil)
@@ -702,7 +702,7 @@ package httpserver
 //@ define sitesOK(x *httpContext) bool = x.instance != nil && forall(k, 0, len(x.siteConfigs), x.siteConfigs[k] != nil && x.siteConfigs[k].TLS != nil && x.siteConfigs[k].TLS.Manager != nil)
 //@ func activateHTTPS
 //@   requires cctx != nil && sitesOK(cctx.(*httpContext)) && marked == 0 && enabled == 0 && redirected == 0 && kept == 0
-//@   modifies ghost:marked, ghost:enabled, ghost:redirected, ghost:kept, httpContext.siteConfigs, Config.Managed, Config.Enabled, Config.ProtocolMinVersion, Config.ProtocolMaxVersion, Config.Ciphers, Config.CurvePreferences, Config.PreferServerCipherSuites
+//@   modifies ghost:marked, ghost:enabled, ghost:redirected, ghost:kept, httpContext.siteConfigs, Config.Managed, Config.Enabled, Config.ProtocolMinVersion, Config.ProtocolMaxVersion, Config.Ciphers, Config.CurvePreferences, Config.PreferServerCipherSuites, Address.Scheme, Address.Port
 //@   at call markQualifiedForAutoHTTPS before [all_sites_screened] arg0 == cctx.(*httpContext).siteConfigs
 //@   at call enableAutoHTTPS before [after_screening_all_sites_with_certificates_loaded] marked == 1 && arg0 == cctx.(*httpContext).siteConfigs && arg1
 //@   at call makePlaintextRedirects before [after_enabling_from_all_sites] enabled == 1 && arg0 == cctx.(*httpContext).siteConfigs
@@ -1123,7 +1123,7 @@ package httpserver
 //@ // the same file gets a roller with its own rotation settings
 //@ ghost rollersPublished int
 //@ func (LogRoller).GetLogWriter
-//@   modifies ghost:rollersPublished
+//@   modifies ghost:rollersPublished, MV:map[string]io.Writer, MD:map[string]io.Writer
 //@   ensures rollersPublished == old(rollersPublished) + 1 && result != nil
 //@ func parseSyslogAddress
 //@ extern github.com/hashicorp/go-syslog.NewLogger
@@ -1135,6 +1135,6 @@ package httpserver
 //@   ensures result != nil
 //@ func (*Logger).Start
 //@   requires l != nil
-//@   modifies Logger.fileMu, Logger.writer, Logger.Logger, LogRoller.Filename, ghost:rollersPublished
+//@   modifies Logger.fileMu, Logger.writer, Logger.Logger, LogRoller.Filename, ghost:rollersPublished, MV:map[string]io.Writer, MD:map[string]io.Writer
 //@   ensures [a_failed_start_publishes_no_roller] result != nil ==> rollersPublished == old(rollersPublished)
 //@   ensures [at_most_one_roller] rollersPublished <= old(rollersPublished) + 1
